@@ -261,6 +261,9 @@ func init() {
 				ctx.Sample(c)
 			}
 			c13Run(ctx, c)
+			if i%1000 == 500 {
+				c13ConfigPath(ctx, i)
+			}
 		}
 	})
 }
